@@ -5,6 +5,7 @@
   py2coq.py validators <repo> <out.v>   parameter validators (setter guard blocks)
   py2coq.py signatures <repo> <out.v>   constructor parameters / dumped keys per class
   py2coq.py classes    <repo> <out.v>   class-level cost / deriv / hess of the simple atomic devices (graceful fallback per method)
+  py2coq.py thermal    <repo> <out.v>   tdevice.py: cost / costv / deriv / r2t / _make_t_base (graceful fallback per method)
   py2coq.py projection <repo> <out.v>   projection/projection.py: every region method incl. the Dykstra loop (graceful fallback per method)
 
 Anything outside the whitelist raises Unsupported naming the file, line and node: the caller treats that
@@ -245,6 +246,9 @@ def main(argv):
     elif what == 'classes':
       from classes_tx import gen_classes
       text = gen_classes(repo)
+    elif what == 'thermal':
+      from tdevice_tx import gen_thermal
+      text = gen_thermal(repo)
     elif what == 'projection':
       from stmt_tx import gen_projection
       text = gen_projection(repo)
